@@ -862,6 +862,30 @@ func c07Q6(r *Run, rep *core.Report, mm *core.MapModel) {
 				seen[b] = true
 				for _, p := range b.Preds {
 					if iff, ok := p.Instrs[len(p.Instrs)-1].(*ssa.If); ok {
+						// a flag variable holding constants only (stop := false; ... stop = true; break; ... if stop { return }):
+						// what matters is how the assignments of the value that leads here are reached
+						if phi, isPhi := iff.Cond.(*ssa.Phi); isPhi {
+							want := p.Succs[0] == b
+							allConst, handled := true, false
+							for _, e := range phi.Edges {
+								if _, isC := core.ConstBool(e); !isC {
+									allConst = false
+								}
+							}
+							if allConst {
+								for i, e := range phi.Edges {
+									if c, _ := core.ConstBool(e); c == want && i < len(phi.Block().Preds) {
+										handled = true
+										seen[p] = true
+										back(phi.Block().Preds[i], depth+1)
+										// the assigning block itself may end in the deciding branch's target: judge how it is entered
+									}
+								}
+								if handled {
+									continue
+								}
+							}
+						}
 						if !okCond(iff.Cond) && bad == "" {
 							bad = "the return at " + r.P.InstrPos(ret) + " is taken on a condition (" + iff.Cond.String() + " at " + r.P.InstrPos(iff) + ") that is neither the end of the bucket array nor the visitor's verdict"
 						}
